@@ -59,7 +59,10 @@ def cases(ctx):
             scale = 4 if isf else 1
             w = [rng.choice([0, 1, 2, 3]) if uns else rng.randint(-4, 6) for _ in range(k)]
             c = {"kind": "conv1d", "dtype": dtype, "shape": shape, "f": f, "w": w, "axis": axis, "mode": mode,
-                 "layout": rng.choice(LAYOUTS), "scale": scale, "wstrided": rng.random() < 0.25}
+                 "layout": rng.choice(LAYOUTS), "scale": scale,
+                 # a weights vector that is a strided view, most often when it already has the image's dtype (then no conversion
+                 # copies it on the way to the native loop)
+                 "wstrided": rng.random() < (0.7 if dtype == "float64" else 0.25)}
             if not isf and rng.random() < 0.3:
                 # fractional weights on an integer image: the weights are converted to the image's dtype (documented for
                 # convolve), on the contiguous fast path exactly as on the generic path
